@@ -2,3 +2,7 @@ import DocsModel.Model.Bytes
 import DocsModel.Model.Entry
 import DocsModel.Model.Spec
 import DocsModel.Model.Tables
+import DocsModel.Model.QuerySpec
+import DocsModel.Model.Postcard
+import DocsModel.Model.Heads
+import DocsModel.Model.FilterText
